@@ -265,9 +265,10 @@ func c01IsAssertFrame(f c01Frame) bool {
 }
 
 // c01PanicSite: the top frame of the main pkglint package below the (last)
-// panic, skipping the assert helpers; frames of the library sub-packages
-// (textproc, regex, ...) are skipped as well, because "Lexer.NextByte" would
-// lump together every caller that reads past the end.
+// panic, skipping the assert helpers and the helper files (c01HelperFiles);
+// frames of the library sub-packages (textproc, regex, ...) are skipped as
+// well, because "Lexer.NextByte" would lump together every caller that reads
+// past the end.
 func c01PanicSite(stderr string) string {
 	ls := strings.Split(stderr, "\n")
 	start := -1
@@ -295,6 +296,11 @@ func c01PanicSite(stderr string) string {
 	}
 	frames := c01ParseFrames(sec[last+1:])
 	for _, f := range frames {
+		if c01IsMainPkgFrame(f) && !c01IsAssertFrame(f) && !c01HelperFiles[f.File] {
+			return c01ShortFunc(f)
+		}
+	}
+	for _, f := range frames {
 		if c01IsMainPkgFrame(f) && !c01IsAssertFrame(f) {
 			return c01ShortFunc(f)
 		}
@@ -311,6 +317,12 @@ func c01PanicSite(stderr string) string {
 	}
 	return "unknown"
 }
+
+// Files whose functions assert preconditions on behalf of their callers (path
+// constructors, the Autofix API, Line/Logger plumbing): a panic raised there
+// is attributed to the first caller outside these files, otherwise every
+// misuse of Autofix.ReplaceAt would share one key.
+var c01HelperFiles = map[string]bool{"util.go": true, "path.go": true, "autofix.go": true, "line.go": true, "lines.go": true, "logging.go": true}
 
 var c01ReMainPkg = regexp.MustCompile(`rillig/pkglint/v\d+\.`)
 
@@ -409,79 +421,101 @@ func c01MainStack(stderr string) []string {
 // hang / slowdown:
 //  1. "nested-modifier-reparse" when the (reduced) input nests expressions at
 //     least 12 deep and a stack shows >= 4 nested MkLexer.exprModifier frames;
-//  2. a self-recursive function (>= 3 frames in one stack, in at least a third
-//     of the samples): the one with the most frames over all samples;
-//  3. otherwise the innermost frame that is present in all samples (the
-//     function that contains the loop).
-// For a run that ends after cpu (time verdicts) the samples are spread over
-// its duration, for a hang they are taken at 1.5 s, 2 s, 2.5 s.
+//  2. otherwise the innermost frame that is on the stack in all samples but at
+//     most one: the function that contains the loop / the whole slow computation.
+// For a run that ends after `cpu` of CPU time (time verdicts) 12 samples are
+// taken at evenly spaced CPU times (the program is deterministic, so the set
+// of stacks is nearly so); for a hang (cpu = 0) at 1.5 s, 2 s, 2.5 s, 3 s of CPU.
 func c01HangFamily(ctx *Ctx, c *c01Case, cpu time.Duration) (family string, stack []string) {
-	var at []time.Duration
-	if cpu > 0 {
-		for _, f := range []float64{0.1, 0.25, 0.4, 0.55, 0.7, 0.85} {
-			at = append(at, time.Duration(float64(cpu)*f))
+	take := func(at []time.Duration) [][]string {
+		got := make([][]string, len(at))
+		var wg sync.WaitGroup
+		for i := range at {
+			wg.Add(1)
+			go func(i int) { defer wg.Done(); got[i] = c01Sample(ctx, c, at[i]) }(i)
 		}
-	} else {
-		at = []time.Duration{1500 * time.Millisecond, 2 * time.Second, 2500 * time.Millisecond, 3 * time.Second}
+		wg.Wait()
+		var samples [][]string
+		for _, s := range got {
+			if len(s) > 0 {
+				samples = append(samples, s)
+			}
+		}
+		return samples
 	}
-	got := make([][]string, len(at))
-	var wg sync.WaitGroup
-	for i := range at {
-		wg.Add(1)
-		go func(i int) { defer wg.Done(); got[i] = c01Sample(ctx, c, at[i]) }(i)
+	nested := func(samples [][]string) bool {
+		maxRec := 0
+		for _, s := range samples {
+			k := 0
+			for _, f := range s {
+				if f == "mklexer.go:MkLexer.exprModifier" {
+					k++
+				}
+			}
+			if k > maxRec {
+				maxRec = k
+			}
+		}
+		return maxRec >= 4 && c01MaxExprNesting(c.Spec) >= 12
 	}
-	wg.Wait()
 	var samples [][]string
-	for _, s := range got {
-		if len(s) > 0 {
-			samples = append(samples, s)
+	if cpu > 0 {
+		var first, rest []time.Duration
+		for i := 0; i < 12; i++ {
+			t := time.Duration(float64(cpu) * (float64(i) + 0.5) / 12)
+			if i%4 == 1 {
+				first = append(first, t)
+			} else {
+				rest = append(rest, t)
+			}
+		}
+		samples = take(first)
+		if len(samples) > 0 && nested(samples) {
+			return "nested-modifier-reparse", samples[0]
+		}
+		samples = append(samples, take(rest)...)
+	} else {
+		samples = take([]time.Duration{1500 * time.Millisecond, 2 * time.Second, 2500 * time.Millisecond, 3 * time.Second})
+		if len(samples) > 0 && nested(samples) {
+			return "nested-modifier-reparse", samples[0]
 		}
 	}
 	if len(samples) == 0 {
 		return "unsampled", nil
 	}
-	maxRec := 0
-	total := map[string]int{}
-	recursive := map[string]int{}
-	for _, s := range samples {
+	need := len(samples) - 1
+	if len(samples) < 4 {
+		need = len(samples)
+	}
+	// walk down from the outermost frame as long as one continuation is shared by `need` samples
+	alive := samples
+	family = "unknown"
+	for depth := 0; ; depth++ {
 		cnt := map[string]int{}
-		for _, f := range s {
-			cnt[f]++
-		}
-		if cnt["mklexer.go:MkLexer.exprModifier"] > maxRec {
-			maxRec = cnt["mklexer.go:MkLexer.exprModifier"]
-		}
-		for f, n := range cnt {
-			total[f] += n
-			if n >= 3 {
-				recursive[f]++
+		for _, s := range alive {
+			if depth < len(s) {
+				cnt[s[depth]]++
 			}
 		}
-	}
-	if maxRec >= 4 && c01MaxExprNesting(c.Spec) >= 12 {
-		return "nested-modifier-reparse", samples[0]
-	}
-	best := ""
-	for f, k := range recursive {
-		if 3*k >= len(samples) && (best == "" || total[f] > total[best] || (total[f] == total[best] && f < best)) {
-			best = f
+		best := ""
+		for f, n := range cnt {
+			if n >= need && (best == "" || n > cnt[best] || (n == cnt[best] && f < best)) {
+				best = f
+			}
 		}
-	}
-	if best != "" {
-		return best, samples[0]
-	}
-	common := samples[0]
-	for _, s := range samples[1:] {
-		k := 0
-		for k < len(common) && k < len(s) && common[k] == s[k] {
-			k++
+		if best == "" {
+			break
 		}
-		common = common[:k]
+		family = best
+		var next [][]string
+		for _, s := range alive {
+			if depth < len(s) && s[depth] == best {
+				next = append(next, s)
+			}
+		}
+		alive = next
 	}
-	if len(common) == 0 {
-		return "unknown", samples[0]
-	}
-	return common[len(common)-1], samples[0]
+	return family, samples[0]
 }
 
 // c01MaxExprNesting: the deepest nesting of ${ / $( in any non-base file.
